@@ -280,7 +280,14 @@ def extract(repo, failures):
     out["sanitizeGuard"] = bool(re.search(
         r"_options\.check_printable_char\s*&&\s*_format_args_store\.has_string_related_type\(\)", pm))
 
-    # ---- Lean text -----------------------------------------------------------------------------------
+    return out, render(out)
+
+
+def render(out):
+    """Lean text of the section (also used for the fallback, so that the driver always builds)"""
+    frame, facts, kinds, pr = out["frame"], out["framing"], out["kinds"], out["printable"]
+    unformatted, exempt, clears = out["unformattedEvents"], out["clearExempt"], out["clearsCache"]
+    hexd, prefix, nib = out["escape"]["hex"], out["escape"]["prefix"], out["escape"]["nibbles"]
     L = []
     L.append("/-- `using SizeCacheVector = InlinedVector<%s, N>` and the growth rule of `push_back` -/" % out["cacheElem"])
     L.append("def cacheInlineCap : Nat := %d" % out["cacheInlineCap"])
@@ -331,8 +338,23 @@ def extract(repo, failures):
     L.append("def escapePrefix : List Nat := [%s]" % ", ".join(str(x) for x in prefix))
     L.append("def escapeNibbles : List String := [%s]" % ", ".join(lean_str(x) for x in nib))
     L.append("def sanitizeGuard : Bool := %s" % lean_bool(out["sanitizeGuard"]))
-    return out, "\n".join(L)
+    return "\n".join(L)
 
 
-FALLBACK = ({"cacheInlineCap": 0, "frame": dict(tsBytes=0, ptrBytes=8, nPtrs=0, lvlBytes=0), "kinds": {},
-             "printable": dict(lo=0, hi=0, extra=[])}, "")
+def _neutral():
+    """values that satisfy no obligation: used when a header can no longer be parsed at all"""
+    k0 = dict(hasPrefix=False, fastSize=False, fastEncode=False, pushCount=False, mapLike=False, pairTemp=False,
+              sizeTraits=[], encodeTraits=[])
+    return {
+        "cacheElem": "uint32_t", "cacheInlineCap": 0, "cacheGrowthFactor": 0, "cacheGrowAllocs": 0, "clearKeepsCapacity": False,
+        "frame": dict(tsBytes=0, ptrBytes=8, nPtrs=0, lvlBytes=0),
+        "framing": dict(lvlCounted=False, lvlWritten=False, lvlRead=False, hdrPtrsWritten=0, hdrPtrsRead=0,
+                        sameSizeReservedCommitted=False),
+        "unformattedEvents": [], "macroEvents": [], "clearExempt": [], "clearsCache": False, "encodeStartsAtZero": False,
+        "kinds": {name: dict(k0) for name, _, _ in CONTAINERS},
+        "directFormatCalls": 0, "directPushes": 0, "deferredFormatCalls": 0, "nonpodSlackSites": 0,
+        "printable": dict(lo=0, hi=0, extra=[]), "escape": dict(hex="", prefix=[], nibbles=[]), "sanitizeGuard": False,
+    }
+
+
+FALLBACK = (_neutral(), render(_neutral()))
